@@ -15,6 +15,8 @@ class Tab:
         s.res = [[rnd.choice([0, 0, 1, 1, 1, 2, 3][:5 + max(0, maxres - 1)]) if maxres > 1 else rnd.choice([0, 1]) for p in range(n + 1)] for k in range(K)]
         s.np = [[rnd.randint(p, n) for p in range(n + 1)] for k in range(K)]
         s.garb = [[rnd.randint(p, n) for p in range(n + 1)] for k in range(K)]
+        s.res2 = [[[rnd.choice([0, 1, 1, 2, 3][:2 + max(0, maxres)]) for e in range(n + 1)] for p in range(n + 1)] for k in range(2)]
+        s.np2 = [[[rnd.randint(p, max(p, e)) for e in range(n + 1)] for p in range(n + 1)] for k in range(2)]
 
 
 def ev(e, p, T):
@@ -136,6 +138,15 @@ def ev(e, p, T):
                 q = r[1]
             if q == q0:
                 return (4, q, 0, 0, q)
+    if n == 'rematch':
+        h = ev(a[0], p, T)
+        if h[0] != 1:
+            return h
+        for x in a[1:]:
+            r = ev2(x, p, h[1], T)
+            if r[0] != 1:
+                return (0, p, 0, 0, h[4]) if r[0] == 0 else r
+        return h
     if n == 'named':
         return ev(a[1], p, T)
     if n == 'tcrn':
@@ -151,6 +162,51 @@ def ev(e, p, T):
         w = a[0].name
         caught = (r[0] in (2, 3)) if w in ('void', 'any_type') else (r[0] == 2) if w.endswith('verif_exc') else (r[0] == 3) if w.endswith('foreign_exc') else False
         return (0, p, 0, 0, r[4]) if caught else r
+    raise ValueError(n)
+
+
+def ev2(e, p, end, T):
+    n, a = e.name, e.args
+    if n == 'sym2':
+        k = ival(a[0])
+        r = T.res2[k][p][end]
+        q = T.np2[k][p][end]
+        if r == 1:
+            return (1, q, 0, 0, q)
+        if r == 0:
+            return (0, p, 0, 0, q)
+        return (r, p, (1100 if r == 2 else 2100) + k, q, q)
+    if n == 'success':
+        return (1, p, 0, 0, p)
+    if n == 'failure':
+        return (0, p, 0, 0, p)
+    if n == 'eof':
+        return (1, p, 0, 0, p) if p == end else (0, p, 0, 0, p)
+    if n == 'any':
+        return (1, p + 1, 0, 0, p + 1) if p < end else (0, p, 0, 0, p)
+    if n == 'seq':
+        q = p
+        for x in a:
+            r = ev2(x, q, end, T)
+            if r[0] != 1:
+                return (0, p, 0, 0, p) if r[0] == 0 else r
+            q = r[1]
+        return (1, q, 0, 0, q)
+    if n == 'sor':
+        for x in a:
+            r = ev2(x, p, end, T)
+            if r[0] != 0:
+                return r
+        return (0, p, 0, 0, p)
+    if n == 'opt':
+        r = ev2(a[0], p, end, T)
+        return (1, p, 0, 0, p) if r[0] == 0 else r
+    if n == 'at':
+        r = ev2(a[0], p, end, T)
+        return (1, p, 0, 0, p) if r[0] == 1 else r
+    if n == 'not_at':
+        r = ev2(a[0], p, end, T)
+        return (0, p, 0, 0, p) if r[0] == 1 else (1, p, 0, 0, p) if r[0] == 0 else r
     raise ValueError(n)
 
 
@@ -180,6 +236,7 @@ WRAP_HEAD = '''// generated wrapper TU — instantiates the real PEGTL templates
 %(includes)s
 using namespace tao::pegtl;
 using vf::sym;
+using vf::sym2;
 using vf::named;
 using vf::verif_exc;
 using vf::foreign_exc;
@@ -199,6 +256,7 @@ HARNESS = r'''/* generated harness: real rule over symbolic sub-rules vs PEG ref
 #define SP_K %(K)d
 #define SP_MAXRES %(maxres)d
 #define SP_BYTES %(bytes)d
+%(k2)s
 #include "verif.h"
 #include "symtab.h"
 
@@ -223,7 +281,7 @@ static void harness(void) {
 '''
 
 
-def harness_text(case, N, K, doc, maxres=3, variants=('ar', 'ao', 'nr', 'no'), bytes_=False):
+def harness_text(case, N, K, doc, maxres=3, variants=('ar', 'ao', 'nr', 'no'), bytes_=False, k2=0):
     g = pegspec.Gen()
     e = lower(parse(case['spec']), doc)
     fn = g.fn(e)
@@ -247,5 +305,5 @@ def harness_text(case, N, K, doc, maxres=3, variants=('ar', 'ao', 'nr', 'no'), b
         reach.append('  REACH(e.r == 2 && e.id >= 4000, "exception converted by raise_nested");')
     if 'foreign' in seen:
         reach.append('  REACH(e.r == 3, "foreign exception propagates");')
-    return HARNESS % {'N': N, 'K': K, 'maxres': maxres, 'bytes': 1 if bytes_ else 0, 'spec': g.text(), 'specfn': fn, 'calls': '\n'.join(calls), 'reach': '\n'.join(reach),
+    return HARNESS % {'N': N, 'K': K, 'maxres': maxres, 'bytes': 1 if bytes_ else 0, 'k2': ('#define SP_K2 %d' % k2) if k2 else '', 'spec': g.text(), 'specfn': fn, 'calls': '\n'.join(calls), 'reach': '\n'.join(reach),
                       'alldefs': '\n'.join('#define V_%s 1' % v for v in variants)}, repr(e), sorted(seen)
